@@ -130,7 +130,7 @@ func inject(k *h.Case, g *spec.Gen, prog *spec.Program, baseOut string) *injecti
 		}
 		return &blocks[c[r.IntN(len(c))]]
 	}
-	kinds := []string{"break-outside", "continue-outside", "continue-not-last", "duplicate-case", "duplicate-case-via-const", "second-default", "const-redefined", "text-clash", "movement-clash", "label-is-sublabel", "label-is-script-name", "label-is-text-label", "label-is-movement-label"}
+	kinds := []string{"break-outside", "continue-outside", "continue-not-last", "duplicate-case", "duplicate-case-via-const", "second-default", "const-redefined", "text-clash", "movement-clash", "label-is-sublabel", "label-is-script-name", "label-is-text-label", "label-is-movement-label", "text-named-like-movement", "movement-named-like-text"}
 	kind := kinds[k.Index%len(kinds)]
 	switch kind {
 	case "break-outside":
@@ -246,7 +246,7 @@ func inject(k *h.Case, g *spec.Gen, prog *spec.Program, baseOut string) *injecti
 		items2 = append(items2, c2)
 		prog.Items = append(items2, items[i2:]...)
 		return &injection{kind, []int{c2.ID}}
-	case "text-clash", "movement-clash", "label-is-text-label", "label-is-movement-label":
+	case "text-clash", "movement-clash", "label-is-text-label", "label-is-movement-label", "text-named-like-movement", "movement-named-like-text":
 		rp, err := spec.Resolve(prog, prog.Switches)
 		if err != nil {
 			return nil
@@ -262,6 +262,33 @@ func inject(k *h.Case, g *spec.Gen, prog *spec.Program, baseOut string) *injecti
 			prog.Items = append(items, prog.Items[at:]...)
 		}
 		switch kind {
+		case "text-named-like-movement":
+			// across the two families: a text statement named like a hoisted movement label
+			if len(lm.Moves) == 0 {
+				return nil
+			}
+			m := lm.Moves[r.IntN(len(lm.Moves))]
+			it := &spec.TextItem{ID: prog.NewID(), Name: m.Label, Scope: r.IntN(3), Val: &spec.TextVal{ID: prog.NewID(), Parts: []string{"user text"}}}
+			addItem(it)
+			ids := []int{it.ID}
+			for _, s := range scriptsOf(rp) {
+				allCmds(s.Body, func(c *spec.Cmd) {
+					for _, a := range c.Args {
+						if a == m.First {
+							ids = append(ids, c.ID)
+						}
+					}
+				})
+			}
+			return &injection{kind, ids}
+		case "movement-named-like-text":
+			if len(lm.Texts) == 0 {
+				return nil
+			}
+			t := lm.Texts[r.IntN(len(lm.Texts))]
+			it := &spec.MovementItem{ID: prog.NewID(), Name: t.Label, Steps: []*spec.ListElem{{ID: prog.NewID(), Name: "walk_up"}}}
+			addItem(it)
+			return &injection{kind, []int{it.ID, t.First.ID}}
 		case "text-clash":
 			if len(lm.Texts) == 0 {
 				return nil
